@@ -239,6 +239,16 @@ def step (st : St) (toks : List String) : St × String :=
         let rs := st.s.res.modify .res m
         (⟨⟨rq.1, rs.1⟩, false⟩, s!"t {b2s rq.2} {b2s rs.2}")
     | none => (st, "bad-op")
+  | "rep" :: k :: rest =>
+    -- the same exchange k times
+    match k.toNat?, parseMsg rest with
+    | some k, some m =>
+      if !msgOk m then (⟨st.s, true⟩, "out-of-model")
+      else if k = 0 then (st, "bad-op")
+      else
+        let s' := (List.replicate k m).foldl State.traffic st.s
+        (⟨s', false⟩, s!"rep {k} {b2s (st.s.req.modify .req m).2} {b2s (st.s.res.modify .res m).2}")
+    | _, _ => (st, "bad-op")
   | "tb" :: n :: rest =>
     match n.toNat?, parseMsg rest with
     | some n, some m =>
